@@ -6,6 +6,7 @@ import (
 	"go/constant"
 	"go/token"
 	"go/types"
+	"os"
 	"regexp"
 	"regexp/syntax"
 	"sort"
@@ -566,7 +567,7 @@ func (c *Ctx) checkConversionLetters() {
 		if conv != nil {
 			r2, err := c.newFolder().foldCall(conv, []fval{{k: constant.MakeInt64(n), t: conv.Params[0].Type()}, top})
 			if err == nil && r2.fn != nil {
-				method = unbound(r2.fn).Name()
+				method = unbound(forwardedTarget(r2)).Name()
 			}
 		}
 		c.check(method == want[r], key, c.pos(target.Pos()), fname(target), fmt.Sprintf("'%c' -> %s -> %s", r, cname, method), fmt.Sprintf("letter '%c' selects %s which runs CircleOfFifth.%s, want %s", r, cname, method, want[r]))
@@ -576,7 +577,7 @@ func (c *Ctx) checkConversionLetters() {
 	if err == nil && v.k != nil && conv != nil {
 		n, _ := constant.Int64Val(v.k)
 		r2, err := c.newFolder().foldCall(conv, []fval{{k: constant.MakeInt64(n), t: conv.Params[0].Type()}, top})
-		isErrClosure := err == nil && r2.fn != nil && strings.Contains(r2.fn.Name(), "$")
+		isErrClosure := err == nil && r2.fn != nil && strings.Contains(forwardedTarget(r2).Name(), "$")
 		c.check(isErrClosure, "cmd|conversionLetter|other", c.pos(target.Pos()), fname(target), "any other letter selects the failing conversion", "an unknown letter selects a real conversion instead of failing")
 	}
 }
@@ -780,10 +781,18 @@ func ruleTabAttrs(c *Ctx) {
 		c.undec("chord|go:generate", "", "", "no `gen attr -d N` go:generate directive found")
 		return
 	}
-	// generator order of qualities, from note.GenerateDegrees
-	order := c.generateDegreesOrder()
-	if order == nil {
-		return
+	// what note.GenerateDegrees yields for that bound, in order: by folding the iterator with a stand-in for `yield`; when
+	// it does not fold, the quality list and loop nesting are read off the source instead
+	yielded, folded := c.generateDegreesByFolding(maxD)
+	var order []string
+	if folded {
+		c.site(1)
+		c.ok("note.GenerateDegrees|order", "", "note.GenerateDegrees", fmt.Sprintf("folded with a recording yield: %d intervals for numbers below %d", len(yielded), maxD))
+	} else {
+		order = c.generateDegreesOrder()
+		if order == nil {
+			return
+		}
 	}
 	// prefix table
 	// prefix per quality: whatever GenerateAttributes uses to name an attribute (a table or a function), folded on every quality
@@ -800,7 +809,24 @@ func ruleTabAttrs(c *Ctx) {
 	// independent generator
 	type gen struct{ name, degree string }
 	var want []gen
-	for n := 0; n < int(maxD); n++ {
+	for _, y := range yielded {
+		q, known := degreeNameQuality[y.name]
+		pf, ok := prefix[y.name]
+		if !ok {
+			// no attribute name for this quality: GenerateAttributes leaves such intervals out
+			continue
+		}
+		if !known {
+			c.bad("note.GenerateDegrees|yield|"+y.name, "", "note.GenerateDegrees", fmt.Sprintf("yields an interval of quality %s, which has no notation", y.name))
+			continue
+		}
+		if _, valid := specSize(y.n, q); !valid {
+			c.bad(fmt.Sprintf("note.GenerateDegrees|yield|%s%d", y.name, y.n), "", "note.GenerateDegrees", fmt.Sprintf("yields %s %d, which is not an interval", y.name, y.n))
+			continue
+		}
+		want = append(want, gen{fmt.Sprintf("%s%d", pf, y.n), specNotation(y.n, q)})
+	}
+	for n := 0; n < int(maxD) && !folded; n++ {
 		for _, dn := range order {
 			q := degreeNameQuality[dn]
 			if _, valid := specSize(n, q); !valid {
@@ -1327,7 +1353,7 @@ func ruleTabLexnames(c *Ctx) {
 			c.check(good, "lexer|letter|"+s, c.pos(e.Pos), "", "letter "+s+" lexes as SYLLABLE", fmt.Sprintf("the printer writes %q for a scale note (note.%s) but the lexer does not read it as one SYLLABLE", s, v.Name()))
 		}
 	}
-	if m, v, _ := c.mapTable("op", "map[op.Accidental]string", "accidentalStringMap"); m != nil {
+	if m, v, _ := c.printedTable("op", "map[op.Accidental]string", "accidentalStringMap", "Accidental.String", "Accidental", "UnknownAccidental"); m != nil {
 		want := map[string]string{"Sharp": "SHARP", "Flat": "FLAT"}
 		for _, e := range m.Entries {
 			s, _ := asStr(e.V)
@@ -1337,7 +1363,7 @@ func ruleTabLexnames(c *Ctx) {
 			c.site(1)
 			rs := []rune(s)
 			good := len(rs) == 1 && lt.runeToken[rs[0]] == want[e.K.vstr()]
-			c.check(good, "lexer|accidental|"+e.K.vstr(), c.pos(e.Pos), "", fmt.Sprintf("%q lexes as %s", s, want[e.K.vstr()]), fmt.Sprintf("the printer writes %q for %s (op.%s) but the lexer reads it as %q, want %s", s, e.K.vstr(), v.Name(), lt.runeToken[rs[0]], want[e.K.vstr()]))
+			c.check(good, "lexer|accidental|"+e.K.vstr(), c.pos(e.Pos), "", fmt.Sprintf("%q lexes as %s", s, want[e.K.vstr()]), fmt.Sprintf("the printer writes %q for %s (op.%s) but the lexer reads it as %q, want %s", s, e.K.vstr(), v, lt.runeToken[rs[0]], want[e.K.vstr()]))
 		}
 	}
 	// diatonic names
@@ -1582,8 +1608,27 @@ func ruleTabDefaults(c *Ctx) {
 				acc = f.vstr()
 			}
 			c.check(nm == "C" && oct == 4 && acc == "Natural", "play.MiddleC", c.pos(pos), "", "MiddleC = C4 natural", fmt.Sprintf("MiddleC is {%s %d %s}, want C4 natural", nm, oct, acc))
+		} else if gv, st := c.foldedGlobal("play", "MiddleC"); gv.fields != nil && st != nil {
+			// built by a constructor: the folded value of the variable
+			get := func(f string) (string, int64) {
+				fv := gv.fields[f]
+				if fv.k == nil || fv.k.Kind() != constant.Int {
+					return "?", -1
+				}
+				n, _ := constant.Int64Val(fv.k)
+				for i := 0; i < st.NumFields(); i++ {
+					if st.Field(i).Name() == f {
+						return c.constName(st.Field(i).Type(), fv.k), n
+					}
+				}
+				return "?", n
+			}
+			nm, _ := get("Name")
+			_, oct := get("Octave")
+			acc, _ := get("Accidental")
+			c.check(nm == "C" && oct == 4 && acc == "Natural", "play.MiddleC", c.pos(v.Pos()), "", "MiddleC = C4 natural (folded initialiser)", fmt.Sprintf("MiddleC is {%s %d %s}, want C4 natural", nm, oct, acc))
 		} else {
-			c.undec("play.MiddleC", c.pos(v.Pos()), "", "not a struct literal")
+			c.undec("play.MiddleC", c.pos(v.Pos()), "", "neither a struct literal nor an initialiser that folds")
 		}
 	} else {
 		c.missing("play.MiddleC")
@@ -1767,7 +1812,7 @@ func ruleTabRegex(c *Ctx) {
 		}
 	}
 	sort.Strings(letters)
-	if m, _, _ := c.mapTable("op", "map[op.Accidental]string", "accidentalStringMap"); m != nil {
+	if m, _, _ := c.printedTable("op", "map[op.Accidental]string", "accidentalStringMap", "Accidental.String", "Accidental", "UnknownAccidental"); m != nil {
 		for _, e := range m.Entries {
 			s, _ := asStr(e.V)
 			accs = append(accs, s)
@@ -2029,4 +2074,107 @@ func (c *Ctx) attrNamePrefixes() (map[string]string, string, string) {
 		out[name] = constant.StringVal(r.tuple[0].k)
 	}
 	return out, pos, how
+}
+
+// foldedGlobal: the folded value of an immutable package-level variable and, when it is a struct, its struct type.
+func (c *Ctx) foldedGlobal(pkgrel, name string) (fval, *types.Struct) {
+	sp := c.ssapkg(pkgrel)
+	if sp == nil {
+		return top, nil
+	}
+	g := sp.Var(name)
+	if g == nil {
+		return top, nil
+	}
+	st, _ := g.Type().(*types.Pointer).Elem().Underlying().(*types.Struct)
+	return c.globalTable(g), st
+}
+
+// forwardedTarget: the function a folded function value ends up running. A closure whose body only hands its arguments
+// (and captured values) on to one captured function value - `func(k Key) (..) { return convert(c, k) }` - runs that
+// function; anything else runs itself.
+func forwardedTarget(v fval) *ssa.Function {
+	fn := v.fn
+	for depth := 0; fn != nil && depth < 4; depth++ {
+		if len(fn.FreeVars) == 0 || len(v.bind) != len(fn.FreeVars) || len(fn.Blocks) != 1 {
+			return fn
+		}
+		var calls []*ssa.Call
+		for _, in := range fn.Blocks[0].Instrs {
+			if call, ok := in.(*ssa.Call); ok {
+				calls = append(calls, call)
+			}
+		}
+		if len(calls) != 1 {
+			return fn
+		}
+		// the callee: a captured variable (loaded from its cell)
+		callee := calls[0].Call.Value
+		if ld, ok := callee.(*ssa.UnOp); ok && ld.Op == token.MUL {
+			callee = ld.X
+		}
+		fv, ok := callee.(*ssa.FreeVar)
+		if !ok {
+			return fn
+		}
+		var bound fval
+		for i, x := range fn.FreeVars {
+			if x == fv {
+				bound = v.bind[i]
+			}
+		}
+		// a captured variable is a cell in the memory of the frame that made the closure
+		if bound.addr != nil && len(bound.addr.path) == 0 && v.heap != nil {
+			bound = v.heap[bound.addr.base]
+		}
+		if bound.fn == nil {
+			return fn
+		}
+		v, fn = bound, bound.fn
+	}
+	return fn
+}
+
+type yieldedDegree struct {
+	name string
+	n    int
+}
+
+// generateDegreesByFolding folds note.GenerateDegrees(maxD) and then the iterator it returns, standing in for `yield`
+// with a function that records its argument and asks for more.
+func (c *Ctx) generateDegreesByFolding(maxD int64) ([]yieldedDegree, bool) {
+	fn := c.fn("note", "GenerateDegrees")
+	if fn == nil || len(fn.Params) != 1 {
+		return nil, false
+	}
+	dnames := c.enumConsts("note", "DegreeName")
+	nameOf := map[int64]string{}
+	for k, v := range dnames {
+		nameOf[v] = k
+	}
+	fd := c.newFolder()
+	fd.maxSteps = 200000
+	it, err := fd.foldCall(fn, []fval{{k: constant.MakeInt64(maxD), t: fn.Params[0].Type()}})
+	if err != nil || it.fn == nil || len(it.fn.Params) != 1 {
+		return nil, false
+	}
+	var out []yieldedDegree
+	okAll := true
+	fd.dyn = func(call *ssa.Call, args []fval) (fval, bool) {
+		if len(args) != 1 || args[0].fields == nil || args[0].fields["Name"].k == nil || args[0].fields["Value"].k == nil {
+			okAll = false
+			return top, false
+		}
+		q, _ := constant.Int64Val(args[0].fields["Name"].k)
+		n, _ := constant.Int64Val(args[0].fields["Value"].k)
+		out = append(out, yieldedDegree{nameOf[q], int(n)})
+		return fval{k: constant.MakeBool(true), t: types.Typ[types.Bool]}, true
+	}
+	if _, err := fd.foldCallEnv(it.fn, []fval{top}, it.bind, it.heap); err != nil || !okAll {
+		if os.Getenv("CRDCHECK_DEBUG") != "" {
+			fmt.Fprintf(os.Stderr, "generateDegreesByFolding: %v (recorded %d)\n", err, len(out))
+		}
+		return nil, false
+	}
+	return out, true
 }
